@@ -97,7 +97,7 @@ Fixpoint path_n (n : nat) (c : rgb) : list nat :=
 
 Definition path_of (c : rgb) : list nat := path_n 8 c.
 
-(* the packed form, exactly as coded, for cross-checking (KDTree... see OctreeProofs.path_packed_ok) *)
+(* the packed form, exactly as coded; OctreePath.path_packed_eq proves it equal to path_of for every colour *)
 Definition packed_step (state : N) : nat * N :=
   let bits := N.land state 0x808080 in
   let state' := N.land (N.shiftl state 1) 0xfefefe in
@@ -140,7 +140,7 @@ Fixpoint insert_rec (path : list nat) (c : rgb) (n : node) : outcome node :=
   end.
 
 Definition oc_insert (t : octree) (c : rgb) : outcome octree :=
-  match path_of c with
+  match path_packed c with          (* OcTreePath::new(color), as coded; = path_of c (OctreePath.path_packed_eq) *)
   | [] => Panic 1311                                  (* expect("OcTreePath can not be empty") *)
   | k :: rest =>
       let* child := insert_rec rest c (nth k (o_children t) Empty) in
